@@ -41,6 +41,18 @@ func isReservedHeader(k string) bool {
 		return false
 	}
 }
+
+// isConnectionHeader reports header fields that describe the client's HTTP/1.1
+// connection, not the call (RFC 7540 section 8.1.2.2). They are not metadata:
+// forwarded to a backend they make its HTTP/2 server reset the stream.
+func isConnectionHeader(k string) bool {
+	switch k {
+	case "connection", "keep-alive", "proxy-connection", "transfer-encoding", "upgrade":
+		return true
+	default:
+		return false
+	}
+}
 func isWhitelistedHeader(k string) bool {
 	switch k {
 	case ":authority", "user-agent":
@@ -72,6 +84,9 @@ func newIncomingContext(ctx context.Context, header http.Header) (context.Contex
 	for k, vs := range header {
 		k = strings.ToLower(k)
 		if isReservedHeader(k) && !isWhitelistedHeader(k) {
+			continue
+		}
+		if isConnectionHeader(k) {
 			continue
 		}
 		if strings.HasSuffix(k, binHdrSuffix) {
